@@ -160,6 +160,13 @@ func execCase(def *PropDef, cs *Case) (w *World) {
 			w.fail(violation("panic/"+at, "panic: %v\n%s", r, clipStack(debug.Stack())))
 		}
 	}()
+	// every run starts with an empty private temp dir: a file leaked by an earlier run of this
+	// worker must not be charged to this one (and a replay in a fresh process starts empty too)
+	if ents, err := os.ReadDir(os.TempDir()); err == nil && os.Getenv("COLSIM_PROP") != "" {
+		for _, e := range ents {
+			os.RemoveAll(os.TempDir() + "/" + e.Name())
+		}
+	}
 	return def.Exec(cs)
 }
 
